@@ -21,7 +21,7 @@ FPREC = 128
 
 
 def passes(tier):
-    return ["pin"] if tier == "quick" else ["pin", "asan", "rt"]
+    return ["pin", "rt"] if tier == "quick" else ["pin", "rt", "asan"]
 
 
 def load(variant):
